@@ -443,3 +443,120 @@ def r11(ctx: RuleCtx) -> None:
                             f'{name}() handles {sorted(hs)} around the lookup; the dict lookup signals an unknown variable with KeyError', fn)
             n += 1
     ctx.floor('get_variable functions with a fallback', n, 1)
+
+
+# ---------------------------------------------------------------------------
+# R12: a duplicate-key guard tests the key that is stored (K8, guard / store agreement on one path)
+# R13: str.underscorify replaces exactly the characters outside [a-zA-Z0-9] (K11, regex-language fact)
+# ---------------------------------------------------------------------------
+
+def _raising_in_tests(fn: ast.AST) -> T.Set[int]:
+    """ids of the `X in D` atoms inside the test of an `if` whose body raises (a duplicate guard)."""
+    out: T.Set[int] = set()
+    for n in ast.walk(fn):
+        if isinstance(n, ast.If) and n.body and isinstance(n.body[-1], ast.Raise) and not n.orelse:
+            for c in ast.walk(n.test):
+                if isinstance(c, ast.Compare) and len(c.ops) == 1 and isinstance(c.ops[0], ast.In):
+                    out.add(id(c))
+    return out
+
+
+def _contains(big: T.Any, small: T.Any) -> bool:
+    if big == small:
+        return True
+    return isinstance(big, tuple) and any(_contains(x, small) for x in big if isinstance(x, tuple))
+
+
+def r12(ctx: RuleCtx) -> None:
+    from .c01_sym import sym_paths, show
+    from .c01_eval import IB, evaluator_helpers
+    mod = ctx.repo.module(IB)
+    n = 0
+    for q, fn in mod.funcs().items():
+        if not q.startswith('InterpreterBase.') or q.count('.') != 1:
+            continue
+        guards = _raising_in_tests(fn)
+        if not guards:
+            continue
+        seen: T.Set[T.Tuple[str, str]] = set()
+        for sp in sym_paths(fn, unroll=1, mod=mod):
+            tested: T.List[T.Tuple[T.Any, T.Any]] = []          # (key, table) known absent on this path
+            for a in sp.actions:
+                if a.kind == 'cond' and id(a.node) in guards and a.val is False and isinstance(a.term, tuple) and a.term[:2] == ('op', 'In'):
+                    tested.append((a.term[2][0], a.term[2][1]))
+                elif a.kind == 'setitem':
+                    table, key = a.term[0], a.term[1]
+                    for gk, gt in tested:
+                        if gt != table:
+                            continue
+                        desc = (show(gk), show(key))
+                        if desc in seen:
+                            continue
+                        seen.add(desc)
+                        n += 1
+                        if gk == key:
+                            ctx.ok(f'{q}: the duplicate guard on {show(table)} tests the key that is stored ({show(key)[:60]})')
+                        elif _contains(key, gk) or _contains(gk, key):
+                            ctx.violation(mod, q, f'duplicate guard tests {show(gk)[:80]} but stores under {show(key)[:80]}',
+                                          f'{q} raises for a duplicate only when `{show(gk)[:80]}` is already in {show(table)}, but the entry is stored under '
+                                          f'`{show(key)[:80]}` (derived from it): the guard can never see an earlier entry, a duplicate key silently overwrites', a.node)
+                        else:
+                            raise Undecided(f'{q}: guard key {show(gk)[:60]} and stored key {show(key)[:60]} are unrelated expressions')
+    ctx.floor('duplicate-key guards followed by a store into the same table', n, 1)
+
+
+def r13(ctx: RuleCtx) -> None:
+    from .. import rx
+    from ..consteval import fold_expr
+    from .c01_sym import sym_paths, is_call, subterms
+    repo = ctx.repo
+    smod = repo.module(STRING)
+    # the documented method -> the helper it delegates to
+    fm = None
+    for st in smod.cls('StringHolder').body:
+        if isinstance(st, ast.FunctionDef) and any(isinstance(d, ast.Call) and (attr_chain(d.func) or '').endswith('.method') and d.args and isinstance(d.args[0], ast.Constant)
+                                                   and d.args[0].value == 'underscorify' for d in st.decorator_list):
+            fm = st
+    if fm is None:
+        raise Undecided('StringHolder registers no `underscorify` method')
+    calls = [c for c in ast.walk(fm) if isinstance(c, ast.Call) and isinstance(c.func, ast.Name) and len(c.args) == 1 and norm(c.args[0]) == 'self.held_object']
+    if len(calls) != 1:
+        raise Undecided('str.underscorify does not delegate to one helper applied to the held string')
+    origin = smod.imports().get(calls[0].func.id, '')
+    um = repo.module('mesonbuild/utils/universal.py')
+    hname = origin.split('.')[-1] or calls[0].func.id
+    if not um.has_func(hname):
+        raise Undecided(f'str.underscorify: helper {hname} not found in utils/universal.py')
+    hf = um.func(hname)
+    p = hf.args.args[0].arg
+    subs = []
+    for sp in sym_paths(hf, mod=um):
+        if sp.outcome == 'return':
+            subs += [t for t in subterms(sp.result) if is_call(t) and (t[2] == 're.sub' or t[2].endswith('.sub'))]
+    if len(subs) != 1:
+        raise Undecided(f'{hname}: not a single regex substitution')
+    c = subs[0]
+    if c[2] == 're.sub' and len(c[4]) == 3:
+        pat_t, repl, subj = c[4]
+        pat = fold_expr(repo, um, ast.parse(pat_t[1], mode='eval').body) if pat_t[0] == 'name' else pat_t[1] if pat_t[0] == 'const' else None
+        flags = 0
+    elif len(c[4]) == 2:
+        repl, subj = c[4]
+        reg = fold_expr(repo, um, ast.parse(c[2][:-4], mode='eval').body)
+        pat, flags = getattr(reg, 'pattern', None), getattr(reg, 'flags', 0)
+    else:
+        raise Undecided(f'{hname}: substitution call of unknown shape')
+    if hasattr(pat, 'pattern'):
+        pat, flags = pat.pattern, pat.flags
+    if not isinstance(pat, str) or repl != ('const', '_') or subj != ('name', p):
+        raise Undecided(f'{hname}: substitution is not `sub(<constant pattern>, "_", <argument>)`')
+    # representative characters: ASCII letters/digits, underscore, punctuation, blank, non-ASCII letter, non-ASCII digit, combining mark
+    keep = 'azAZ09mM5'
+    other = ['_', '-', ' ', '.', '/', '+', '\t', '\n', 'é', 'ß', '٣', '中', '́']
+    wrong_keep = [ch for ch in keep if rx.full_matches(pat, ch, flags)]
+    wrong_other = [ch for ch in other if not rx.full_matches(pat, ch, flags)]
+    ctx.require(not wrong_keep and not wrong_other, 'str.underscorify replaces exactly the characters outside [a-zA-Z0-9]', um, hname, f'underscorify pattern {pat!r}',
+                f'the pattern {pat!r} of {hname} {"replaces " + repr(wrong_keep) if wrong_keep else ""}{" keeps " + repr(wrong_other) if wrong_other else ""}: '
+                'the reference replaces every character that is not an ASCII letter or digit by `_`', hf)
+    ctx.require(rx.full_matches(pat, '__', flags) is False, 'str.underscorify replaces character by character', um, hname, f'underscorify pattern {pat!r} per character',
+                f'the pattern {pat!r} matches runs of characters: several characters would collapse into one `_`', hf)
